@@ -552,6 +552,8 @@ fn part_a(a: &Args, out: &mut Out, budget_ops: usize) {
         }
     }
     out.extra.insert("kernel_scripts".into(), json!(n_scripts));
+    let (new_ids, gone) = crate::c20_bug::catalogue_drift();
+    out.extra.insert("fault_catalogue".into(), json!({"ids_in_repo_not_in_model(consulted by nobody the model knows; regenerate with tools/gen_c20_faults.py)": new_ids, "ids_in_model_not_in_repo": gone}));
 }
 
 // ------------------------------------------------------------------------------------------
